@@ -10,7 +10,7 @@ update is the block minimiser, hence the objective does not increase; L6 compose
 from ..oblig import GOb
 from ..symint import atom, EngineError, sprod
 from ..loopcut import LoopCut
-from ..iterative import Probe, CallbackProbe, stubbed
+from ..iterative import Probe, CallbackProbe, stubbed, real_dtype
 from .. import specs as SP
 from .. import gtensor as G
 
@@ -278,7 +278,7 @@ def obligations(tier):
                 U = G.opaque_tensor("SVDU", [matrix.shape[0], n_eigenvecs], matrix.dtype, ortho_axis=0)
                 V = G.opaque_tensor("SVDV", [n_eigenvecs, matrix.shape[1]], matrix.dtype, ortho_axis=1)
                 rec[-1].update(U=U, V=V)
-                return U, G.opaque_tensor("SVDS", [n_eigenvecs]), V
+                return U, G.opaque_tensor("SVDS", [n_eigenvecs], real_dtype(matrix)), V
             from tensorly.tenalg.svd import svd_interface as real
             import numpy as np
             out = real(matrix, n_eigenvecs=n_eigenvecs, **kw)
